@@ -49,9 +49,10 @@ TRUSTED_EXTRA = ["AST pattern matcher for Unit.solve & friends (driver/translate
 
 # 'within the precision': two runs that both stopped when consecutive iterates agreed within prec (relative) end within
 # q/(1-q)*prec of the fixed point each (contraction factor q); nested loops and the sensitivity of one unit to the values
-# handed over by its predecessors amplify this.  The feedback models used here have q <= 0.3 (measured: the worst ratio
-# on the unchanged tree is printed in the evidence as `within-ratio-max`).
-WITHIN_K = 50.0
+# handed over by its predecessors amplify this.  The feedback models used here have q <= 0.3: 2q/(1-q) <= 0.86; measured
+# over 900 generated sequences on the repaired tree the worst ratio was 1.1 (printed in the evidence as
+# `within-ratio-max`); 10 leaves a factor 9.
+WITHIN_K = 10.0
 
 PRECS = [1e-1, 1e-2, 1e-3, 1e-3, 1e-4, 1e-5, 1e-6, 1e-7, 1e-9]
 LIMITS = [1, 2, 3, 5, 100, 100, 100, 100]
@@ -580,10 +581,9 @@ def gen_script(rng):
     if kind == "boundary-exact":
         for c in calls:
             c["prec"] = 2.0 ** -rng.choice([1, 2, 3, 10, 20])
-    total = sum(c["max_iter"] for c in calls) + 2
-    total = min(total, 60)
     for c in calls:
         c["max_iter"] = min(c["max_iter"], 25)
+    total = sum(c["max_iter"] for c in calls) + 2
     p = calls[0]["prec"]
     x = _base_vector(rng, n)
     if kind == "boundary-exact":
@@ -649,6 +649,9 @@ SCRIPT_CORPUS = [
     # changing length: numpy broadcasting (length 1) and ValueError
     {"kind": "corpus-shapes", "calls": [{"max_iter": 100, "prec": 1e-3}, {"max_iter": 100, "prec": 1e-3}],
      "script": [[1.0], [1.0, 2.0, 3.0], [1.0, 2.0], [7.0], [7.0, 7.0], [7.0, 7.0], [7.0, 7.0]]},
+    # C05.resolve_full_false: results resting at 1 for two iterations, then moving to 5: both solves end quietly (1, then 5)
+    {"kind": "corpus-jump", "calls": [{"max_iter": 3, "prec": 1e-1}, {"max_iter": 3, "prec": 1e-1}],
+     "script": [[1.0], [1.0], [5.0], [5.0], [5.0]]},
     # NaN inside never agrees
     {"kind": "corpus-nan", "calls": [{"max_iter": 5, "prec": 1e-1}], "script": [[float("nan"), 1.0]] * 6},
 ]
@@ -667,7 +670,8 @@ def run_scripted(ctx, sc, lines, pending):
                 u.solve(ip)
             except ScriptOverrun:
                 fr = rec.frames[-1]
-                fr.limits = (c["max_iter"], c["prec"])
+                if len(fr.vectors) < c["max_iter"]:
+                    raise                      # the script is too short for the limits of its calls: a bug of the generator
                 report(ctx, "iterations-exceed-limit", f"scripted unit: the loop asked for vector {len(fr.vectors) + 1} with "
                        f"max_iteration_count={c['max_iter']}", {"scripted": sc})
                 return
@@ -817,6 +821,9 @@ def add_model_line(ctx, fr, lines, pending, rp):
     if mi is None or mi < 0:
         ctx.count("model-skipped:limits-unreadable")
         return
+    if len(lines) > ctx.budget(8000, 60000) and fr.outcome == "returned" and not frame_warned(fr) and len(fr.vectors) < 4:
+        ctx.count("model-skipped:line-budget")      # plenty of plain quiet calls already; keep the unusual ones
+        return
     items = [bits_vec(v) for v in fr.vectors]
     expect_exc = "ok"
     n_expected = len(fr.vectors)
@@ -834,7 +841,11 @@ def add_model_line(ctx, fr, lines, pending, rp):
             consumed += 1
     old = "N" if fr.old_before is None else bits_vec(fr.old_before)
     lines.append(f"solve {mi} {stub.bits(prec)} {old} {1 if fr.out_before is not None else 0} {';'.join(items) if items else '.'}")
-    pending.append(("solve", fr, (n_expected, expect_exc, consumed), rp))
+    # keep only what the comparison needs (not the frame: it holds the unit and with it the whole sequence)
+    real_created = None if fr.out_after is None else (fr.out_before is None or fr.out_after is not fr.out_before)
+    light = {"unit": str(fr.unit), "warned": frame_warned(fr), "outcome": fr.outcome, "created": real_created,
+             "fin": [n for (k, n, _) in fr.logs if k == "finished"], "old_after": fr.old_after}
+    pending.append(("solve", light, (n_expected, expect_exc, consumed), rp))
 
 
 def _same_vec(a, b):
@@ -860,27 +871,25 @@ def compare_model(ctx, kind, ans, item):
     what = []
     if int(its) != n_expected:
         what.append(f"iterations: model {its}, implementation {n_expected}")
-    if (warned == "1") != frame_warned(fr):
-        what.append(f"non-convergence warning: model {warned == '1'}, implementation {frame_warned(fr)}")
+    if (warned == "1") != fr["warned"]:
+        what.append(f"non-convergence warning: model {warned == '1'}, implementation {fr['warned']}")
     if exc != expect_exc:
-        what.append(f"outcome: model {exc}, implementation {fr.outcome}")
-    if fr.out_after is not None:
-        real_created = fr.out_before is None or fr.out_after is not fr.out_before
-        if (created == "1") != real_created:
-            what.append(f"out profile created: model {created == '1'}, implementation {real_created}")
-    fin = [n for (k, n, _) in fr.logs if k == "finished"]
+        what.append(f"outcome: model {exc}, implementation {fr['outcome']}")
+    if fr["created"] is not None and (created == "1") != fr["created"]:
+        what.append(f"out profile created: model {created == '1'}, implementation {fr['created']}")
+    fin = fr["fin"]
     if logged != "_" and (len(fin) != 1 or fin[0] != int(logged)):
         what.append(f"'Finished ... after N iterations': model N={logged}, implementation logged {fin}")
     if logged == "_" and fin:
         what.append(f"implementation logged 'Finished ... after {fin} iterations', the model says the loop was not left by break")
     m_old = None if old == "N" else ([] if old == "-" else [stub.unbits(x) for x in old.split(",")])
-    if not _same_vec(m_old, fr.old_after):
+    if not _same_vec(m_old, fr["old_after"]):
         what.append(f"_old_results afterwards: model {m_old if m_old is None else m_old[:4]}, implementation "
-                    f"{fr.old_after if fr.old_after is None else fr.old_after[:4]}")
+                    f"{fr['old_after'] if fr['old_after'] is None else fr['old_after'][:4]}")
     if int(used) != consumed:
         what.append(f"loop bodies entered: model {used}, implementation {consumed}")
     if what:
-        ctx.disagreement(f"{fr.unit}: " + "; ".join(what), rp)
+        ctx.disagreement(f"{fr['unit']}: " + "; ".join(what), rp)
     else:
         ctx.validated()
 
@@ -1088,7 +1097,10 @@ def check_within(ctx, case, key, what, a, b, frames):
         report(ctx, key, f"{what}: value {missing} present in only one of the two results", {"case": case})
         return
     ratio = r / prec
-    ctx.notes["within-ratio-max"] = max(ctx.notes.get("within-ratio-max", 0.0), ratio)
+    if ratio > ctx.notes.get("within-ratio-max", 0.0):
+        ctx.notes["within-ratio-max"] = ratio
+        ctx.notes["within-ratio-max-at"] = {"what": key, "value": k, "prec": prec, "models": case["models"], "max_iter": case["max_iter"],
+                                            "via": case["via"], "units": len(case["units"])}
     if ratio > WITHIN_K:
         report(ctx, key, f"{what}: {k} differs by {r:.3g} relative = {ratio:.3g} x the iteration precision {prec:g} "
                f"(allowed {WITHIN_K:g} x)", {"case": case})
@@ -1144,7 +1156,12 @@ def run_case(ctx, case, lines, pending):
         d2 = solve_rec(rec, D, ip())
         check_frames(ctx, case, a2.frames, lines, pending, "resolve")
         if a2.err is not None:
-            report(ctx, "resolve-raises", f"second solve of the same sequence raised {a2.err!r}", {"case": case})
+            # (when the first solve ended with warnings the second one continues an iteration that did not converge - it
+            # may well run into trouble a single solve does not reach; nothing is claimed then)
+            if not a1.warned:
+                report(ctx, "resolve-raises", f"second solve of the same sequence raised {a2.err!r}", {"case": case})
+            else:
+                ctx.count("resolve-raised-after-warned-solve")
         else:
             d = ("raised " + repr(d2.err)) if d2.err is not None else (diff_frames(a2.frames, d2.frames) or diff_bits(a2.snap, d2.snap))
             if d:
@@ -1155,7 +1172,7 @@ def run_case(ctx, case, lines, pending):
                              a1, a2, a1.frames + a2.frames)
                 ctx.count("resolve-compared")
         # ---- the same sequence solved again with a CHANGED incoming profile vs a fresh sequence with that profile
-        if case.get("second_input"):
+        if case.get("second_input") and not a1.warned and not a2.warned and a2.err is None:
             spec2 = dict(case["in"])
             spec2.update(case["second_input"])
             g1 = solve_rec(rec, A, build_in_profile(spec2))
@@ -1212,6 +1229,9 @@ def after_abort(ctx, case, rec, E, e1, a1, ip, lines, pending):
     e2 = solve_rec(rec, E, ip())
     f2 = solve_rec(rec, F, ip())
     check_frames(ctx, case, e2.frames, lines, pending, "retry")
+    if e2.err is not None and a1.warned:
+        ctx.count("retry-raised-where-fresh-solve-warned")      # not converging anyway: nothing is claimed
+        return
     if e2.err is not None:
         root = _root_cause(e2.err)
         report(ctx, "retry-after-abort-raises", f"solve aborted by {_root_cause(e1.err)!r}; cause removed; the next solve of the same "
